@@ -11,8 +11,10 @@ pub const ID_A: &str = "ab5f5a62-f6fc-46d1-aa84-51ccc51ec367"; // ask slot 0 AND
 pub const ID_A2: &str = "11111111-1111-4111-8111-111111111111"; // ask slot 1
 pub const ID_B2: &str = "22222222-2222-4222-8222-222222222222"; // bid slot 1
 pub const ID_UNUSED: &str = "99999999-9999-4999-8999-999999999999";
-pub const ASK_IDS: [&str; 2] = [ID_A, ID_A2];
-pub const BID_IDS: [&str; 2] = [ID_A, ID_B2];
+pub const ID_A3: &str = "33333333-3333-4333-8333-333333333333"; // ask slot 2 (same owner as slot 0)
+pub const ID_B3: &str = "44444444-4444-4444-8444-444444444444"; // bid slot 2 (same owner as slot 0)
+pub const ASK_IDS: [&str; 3] = [ID_A, ID_A2, ID_A3];
+pub const BID_IDS: [&str; 3] = [ID_A, ID_B2, ID_B3];
 
 pub fn unhyphen(id: &str) -> String {
     id.replace('-', "")
@@ -344,7 +346,7 @@ pub fn mk_create_ask(cfg: &Cfg, slot: usize, base: &str, price: &str, size: u128
 }
 
 pub fn mk_create_ask_q(cfg: &Cfg, slot: usize, base: &str, price: &str, size: u128, quote: &str) -> Act {
-    let owner = cfg.roles.get(if slot == 0 { "seller1" } else { "seller2" });
+    let owner = cfg.roles.get(if slot % 2 == 0 { "seller1" } else { "seller2" });
     Act::new(
         owner,
         escrow(cfg, size, base),
@@ -364,7 +366,7 @@ pub fn mk_create_bid(cfg: &Cfg, slot: usize, price: &str, size: u128) -> Option<
 }
 
 pub fn mk_create_bid_q(cfg: &Cfg, slot: usize, price: &str, size: u128, quote: &str) -> Option<Act> {
-    let owner = cfg.roles.get(if slot == 0 { "buyer1" } else { "buyer2" });
+    let owner = cfg.roles.get(if slot % 2 == 0 { "buyer1" } else { "buyer2" });
     let total = exact_total(price, size)?;
     if total == 0 {
         return None;
@@ -393,7 +395,7 @@ pub fn alphabet_l(cfg: &Cfg, m: &Menu) -> Vec<Act> {
     let mut v = vec![];
     for slot in 0..m.ask_slots {
         let id = ASK_IDS[slot];
-        let owner = r.get(if slot == 0 { "seller1" } else { "seller2" });
+        let owner = r.get(if slot % 2 == 0 { "seller1" } else { "seller2" });
         let quotes: Vec<String> = if m.quotes.is_empty() { vec![cfg.quotes[0].clone()] } else { m.quotes.iter().map(|s| s.to_string()).collect() };
         for base in &m.ask_bases {
             for p in &m.prices {
@@ -438,7 +440,7 @@ pub fn alphabet_l(cfg: &Cfg, m: &Menu) -> Vec<Act> {
     }
     for slot in 0..m.bid_slots {
         let id = BID_IDS[slot];
-        let owner = r.get(if slot == 0 { "buyer1" } else { "buyer2" });
+        let owner = r.get(if slot % 2 == 0 { "buyer1" } else { "buyer2" });
         let quotes: Vec<String> = if m.quotes.is_empty() { vec![cfg.quotes[0].clone()] } else { m.quotes.iter().map(|s| s.to_string()).collect() };
         for p in &m.prices {
             for s in &m.sizes {
